@@ -76,7 +76,12 @@ func varName(vr *types.Var, suffix string) string {
 		"string", "bool", "byte", "rune", "uintptr",
 		"int", "int8", "int16", "int32", "int64",
 		"uint", "uint8", "uint16", "uint32", "uint64",
-		"float32", "float64", "complex64", "complex128":
+		"float32", "float64", "complex64", "complex128",
+		// ...nor the other predeclared identifiers, which the templates'
+		// method bodies (or the rest of the signature) may refer to
+		"any", "comparable", "error", "true", "false", "iota", "nil",
+		"append", "cap", "clear", "close", "complex", "copy", "delete", "imag", "len", "make",
+		"max", "min", "new", "panic", "print", "println", "real", "recover":
 		name += "Param"
 	}
 
